@@ -459,7 +459,11 @@ class KBEval:
             else:
                 if b.w != a.w:
                     b = b.resize(a.w, (type_info(s['r'].get('ty')) or (0, False))[1])
-                r = {'&': lambda: a & b, '|': lambda: a | b, '^': lambda: a ^ b, '+': lambda: a.add(b), '-': lambda: a.sub(b)}.get(op, lambda: KB.top(a.w))()
+                if op in ('*', '/', '%') and a.value() is not None and b.value() is not None and (op == '*' or b.value() != 0) and not (lw and lw[1]):
+                    av, bv = a.value(), b.value()
+                    r = KB.const(a.w, {'*': av * bv, '/': av // bv if bv else 0, '%': av % bv if bv else 0}[op])
+                else:
+                    r = {'&': lambda: a & b, '|': lambda: a | b, '^': lambda: a ^ b, '+': lambda: a.add(b), '-': lambda: a.sub(b)}.get(op, lambda: KB.top(a.w))()
             if lw and r.w != lw[0]:
                 r = r.resize(lw[0], False)
             self.assign(s['l'], r)
